@@ -67,6 +67,7 @@ func genRPC(t *rapid.T) *rpcPlan {
 }
 
 func execRPC(run *core.Run, p *rpcPlan) {
+	fault := p.Fault // "none" again for a retry
 	data := &meta.Data{}
 	for i := 1; i <= 2; i++ {
 		data.Index++
@@ -127,7 +128,7 @@ func execRPC(run *core.Run, p *rpcPlan) {
 		if addr != clustersim.Addr(1) {
 			return pol
 		}
-		switch p.Fault {
+		switch fault {
 		case "slow":
 			pol.Latency = time.Duration(5+p.K%40) * time.Millisecond
 			pol.Fragment = int(1 + p.K%700)
@@ -145,7 +146,7 @@ func execRPC(run *core.Run, p *rpcPlan) {
 		}
 	}
 	shard := uint64(id)
-	if p.Fault == "noshard" {
+	if fault == "noshard" {
 		shard = 99 // the source has no such shard: its backup request fails on the source
 	}
 	done := make(chan error, 1)
@@ -156,16 +157,39 @@ func execRPC(run *core.Run, p *rpcPlan) {
 	select {
 	case cerr = <-done:
 	case <-time.After(10 * time.Minute):
-		run.Fail("copy-never-returns", "", "the copy-shard request did not return within 10 simulated minutes (fault %s/%d)", p.Fault, p.K)
+		run.Fail("copy-never-returns", "", "the copy-shard request did not return within 10 simulated minutes (fault %s/%d)", fault, p.K)
 		return
 	}
-	run.Logf("copy-shard with fault %s/%d -> %v", p.Fault, p.K, cerr)
+	run.Logf("copy-shard with fault %s/%d -> %v", fault, p.K, cerr)
 	if cerr != nil {
 		run.Probe("rpc-copy-refused")
 		run.NonTrivial = true
-		return
+		if fault == "noshard" {
+			return
+		}
+		// the operator retries once the network is healthy again: the copy
+		// left behind by the failed attempt (an empty or partial shard) must
+		// not keep the retry from producing a faithful copy
+		fault = "none"
+		closes = 0
+		retried := make(chan error, 1)
+		go func() {
+			retried <- coordinator.NewClient(nil, 30*time.Second).CopyShard(clustersim.Addr(2), clustersim.Addr(1), storesim.DB, storesim.RP, shard, time.Time{})
+		}()
+		select {
+		case cerr = <-retried:
+		case <-time.After(10 * time.Minute):
+			run.Fail("copy-never-returns", "", "the retried copy-shard request did not return within 10 simulated minutes")
+			return
+		}
+		run.Logf("retried copy-shard without faults -> %v", cerr)
+		if cerr != nil {
+			run.Fail("copy-retry-refused", "rpc", "a copy-shard request failed under a network fault; its retry over a healthy network fails as well: %v", cerr)
+			return
+		}
+		run.Probe("rpc-copy-retried-after-failure")
 	}
-	if p.Fault == "noshard" {
+	if fault == "noshard" {
 		run.Fail("truncated-copy-reported-complete", "", "copy of shard %d, which the source does not have, was reported as successful: the source's failed backup request ends the stream cleanly and the destination takes the empty stream for a complete archive", shard)
 		return
 	}
@@ -179,7 +203,7 @@ func execRPC(run *core.Run, p *rpcPlan) {
 			run.Fail("truncated-copy-reported-complete", "", "copy-shard over a stream the source closed cleanly after %d bytes was reported as successful, but the destination differs from the source: %s", p.K, mm.Detail)
 			return
 		}
-		run.Fail("copy-differs-from-source", "rpc", "copy-shard (fault %s/%d) was reported as successful, but the destination differs from the source: %s", p.Fault, p.K, mm.Detail)
+		run.Fail("copy-differs-from-source", "rpc", "copy-shard (fault %s/%d) was reported as successful, but the destination differs from the source: %s", fault, p.K, mm.Detail)
 		return
 	}
 	// nothing extra either
